@@ -18,7 +18,7 @@ package ice
 //@   props C02
 //@   requires msg != nil
 //@   pure
-//@   ensures binding-only: result == (msg.Type.Method == 1 && (msg.Type.Class == 0 || msg.Type.Class == 1 || msg.Type.Class == 2))
+//@   ensures binding-only: result == (msg.Type.Method == 1 && (msg.Type.Class == 0 || msg.Type.Class == 1 || msg.Type.Class == 2 || msg.Type.Class == 3))
 
 // RFC 5389 15.4: what follows MESSAGE-INTEGRITY is not covered by the HMAC and must be ignored (FINGERPRINT
 // excepted). gAuthOnly(m): m carries no attribute after MESSAGE-INTEGRITY. Nothing establishes it today
@@ -87,7 +87,8 @@ package ice
 //@   site call handleInboundRequest#1 ghost handled := true
 //@   site call handleInboundRequest#1 ghost accepted := result1
 //@   site call seen#1 assert liveness-refreshed-only-for-an-accepted-message-or-an-indication: (handled ==> accepted) && (!handled ==> msg.Type.Class == 1) && recv == remoteCandidate && arg0 == false
-//@   ensures unhandled-messages-change-nothing: msg == nil || local == nil || !(old(msg.Type.Method) == 1 && (old(msg.Type.Class) == 0 || old(msg.Type.Class) == 1 || old(msg.Type.Class) == 2)) ==> unchangedExcept()
+//@   ensures unhandled-messages-change-nothing: msg == nil || local == nil || !(old(msg.Type.Method) == 1 && (old(msg.Type.Class) == 0 || old(msg.Type.Class) == 1 || old(msg.Type.Class) == 2 || old(msg.Type.Class) == 3)) ==> unchangedExcept()
+//@   site call handleInboundErrorResponse#1 assert error-responses-only-for-error-responses-and-never-on-a-failed-agent: msg.Type.Class == 3 && msg.Type.Method == 1 && arg3 == msg && arg1 == local && a.connectionState != ConnectionStateFailed
 
 //@ func (*Agent).findRemoteCandidate
 //@   props C02 C06 C07
@@ -104,3 +105,31 @@ package ice
 //@ enumerate C02 stores ice.Agent.localUfrag in newAgentFromConfig, (*Agent).Restart, WithLocalCredentials
 //@ enumerate C02 stores ice.Agent.localPwd in newAgentFromConfig, (*Agent).Restart, WithLocalCredentials
 //@ enumerate C02 stores ice.Agent.pendingBindingRequests in createAgentBase, (*Agent).updateConnectionState, (*Agent).sendBindingRequest, (*Agent).invalidatePendingBindingRequests, (*Agent).handleInboundBindingSuccess, (*Agent).Restart
+
+// RFC 8445 7.2.5.1: the only error response that has an effect is a 487 (Role Conflict) answer to one of the
+// agent's own checks - authenticated with the remote password (never the empty one), matching a pending
+// transaction, symmetric - and only while the agent still has the role that check was sent in; then the agent
+// takes the opposite role exactly as when it loses the tie-break on a request. Everything else changes nothing
+// beyond the bookkeeping of a consumed transaction.
+//@ func (*Agent).handleInboundErrorResponse
+//@   props C02 C05 C17
+//@   ghostvar switched bool = false
+//@   site call Store#1 ghost switched := true
+//@   ensures C17 C05 a-role-switch-re-ranks-the-listed-pairs: switched ==> pairsFollowRole(a) && (a.isControlling != 0) == (old(a.isControlling) == 0)
+//@   ensures C05 no-switch-keeps-the-role: !switched ==> a.isControlling == old(a.isControlling)
+//@   opt nosafety
+//@   requires a != nil && msg != nil
+//@   ghostvar integ bool = false
+//@   ghostvar tx bool = false
+//@   ghostvar sym bool = false
+//@   site call Check#1 assert integrity-message: arg1 == msg
+//@   site call Check#1 assert integrity-key-is-the-non-empty-remote-password: a.remotePwd != "" && elems(arg0) == strBytes(a.remotePwd) && arg0.off == 0 && len(arg0) == len(a.remotePwd)
+//@   site call Check#1 ghost integ := result == nil
+//@   site call handleInboundBindingSuccess#1 assert matched-only-after-authentication-and-only-for-a-role-conflict: integ && code.Code == stun.CodeRoleConflict
+//@   site call handleInboundBindingSuccess#1 ghost tx := result0
+//@   site call responseSymmetric#1 assert symmetric-check-after-transaction: tx && arg0 == pendingRequest && arg1 == local
+//@   site call responseSymmetric#1 ghost sym := result
+//@   site call Store#1 assert the-role-is-given-up-only-on-an-authenticated-matched-symmetric-487-to-a-check-sent-in-the-role-the-agent-still-has: integ && tx && sym && pendingRequest.isControlling == (a.isControlling != 0)
+//@   site call Store#1 assert flips: arg1 == (a.isControlling == 0)
+//@   ensures an-unauthenticated-error-response-changes-nothing: !integ ==> unchangedExcept()
+//@   ensures an-error-response-that-matches-no-transaction-or-is-not-symmetric-keeps-the-role: !(integ && tx && sym) ==> a.isControlling == old(a.isControlling) && a.selector == old(a.selector)
